@@ -444,7 +444,7 @@ func judge(o *simOutcome, syncFree bool) (vs []verdict, harness string) {
 
 // ---------------------------------------------------------------- generation
 
-var opKinds = []string{"qr", "dm", "ean13", "ean8", "upca", "upce", "code39", "code93", "code128", "itf", "codabar", "qrmulti", "aztec", "rs", "bin", "eci", "eanext", "qrdmg", "dmdmg", "aztecgen", "qreci", "faint"}
+var opKinds = []string{"qr", "dm", "ean13", "ean8", "upca", "upce", "code39", "code93", "code128", "itf", "codabar", "qrmulti", "aztec", "rs", "bin", "eci", "eanext", "qrdmg", "dmdmg", "aztecgen", "qreci", "faint", "rssimg", "photo"}
 
 func gen18(c *kit.Ctx, numSites int, syncFree bool) *Trace18 {
 	r := c.RNG
